@@ -5,7 +5,10 @@
 // a clock and logging never draws.
 package tape
 
-import "math"
+import (
+	"math"
+	"os"
+)
 
 // pcg32 (XSH-RR 64/32), written out so that no library RNG version matters.
 type pcg struct{ state, inc uint64 }
@@ -56,6 +59,9 @@ type Tape struct {
 	// Journal, when set, is called before every draw with the values so far
 	// flushed lazily by the engines (crash attribution).
 	Overrun int // number of draws past the end of a replayed tape
+	// Journal, when set, receives every drawn value at once (8 bytes, little
+	// endian, unbuffered): the tape of a run that kills its process survives.
+	Journal *os.File
 }
 
 // New returns a recording tape.
@@ -95,6 +101,13 @@ func (t *Tape) draw(n uint64, label string) uint64 {
 		t.pos++
 	}
 	t.Vals = append(t.Vals, v)
+	if t.Journal != nil {
+		var b [8]byte
+		for i := 0; i < 8; i++ {
+			b[i] = byte(v >> (8 * uint(i)))
+		}
+		t.Journal.Write(b[:])
+	}
 	if t.KeepRec {
 		t.Rec = append(t.Rec, Entry{label, n, v})
 	}
